@@ -80,3 +80,54 @@ Example C13_demo : fields_ok_b good_tbl = true /\ check_grammar good_tbl ["NAME"
                    /\ fields_ok_b old_tbl = false /\ check_grammar old_tbl ["NAME"] g_sep = None.
 Proof. vm_compute. repeat split; reflexivity. Qed.
 Print Assumptions C13_demo.
+
+(* ... and that side condition is a THEOREM about the generator: for EVERY grammar whose leaf names are
+   rules of the grammar or token kinds the call maker knows (NAME, NUMBER, STRING, OP, TYPE_COMMENT,
+   the three FSTRING kinds, SOFT_KEYWORD, NEWLINE, INDENT, DEDENT, ENDMARKER, ASYNC, AWAIT) and whose
+   string literals carry their quotes, whatever the analysis results and tables, everything the
+   generator model emits satisfies [refs_ok]: each self.n() names a rule of the grammar, a helper
+   rule the generator queued (_tmp_/_loop/_gather, which it then emits: the work list is processed
+   to the end) or a runtime primitive.  Hence no parser generated from such a grammar can end in
+   AttributeError for a missing method, on any input.  (Token names outside that list -- the
+   recorded finding `start: LPAR NEWLINE` -- are exactly what the hypothesis excludes.) *)
+From Pegen Require Import Grammar.Ast Analysis.Nullable Proofs.GenRefs.
+Theorem C13_generated_modules_resolve_every_reference :
+  forall K invalid_tbl iter_fields pre suf file fb g an M,
+  grammar_names_ok g = true ->
+  generate invalid_tbl iter_fields pre suf file fb g an = inl M ->
+  refs_ok K M = true /\
+  forall toks verbose use_cache aeval exact_types token_dict fuel n st, find_meth M n <> None ->
+  match fst (run K toks verbose use_cache M aeval exact_types token_dict fuel n st) with
+  | Raise (XAttributeError _) => False
+  | _ => True
+  end.
+Proof.
+  intros K tbl itf pre suf file fb g an M Hg HM.
+  pose proof (generated_refs_ok K tbl itf pre suf file fb g an M Hg HM) as Hr. split; [exact Hr|].
+  intros toks verbose use_cache aeval ex td fuel n st Hn.
+  exact (references_resolve K toks verbose use_cache M aeval ex td Hr fuel n Hn st).
+Qed.
+Print Assumptions C13_generated_modules_resolve_every_reference.
+
+(* non-vacuity: a grammar with a gather over a group, an optional, a repetition and a forced literal (five helper
+   rules are queued) meets the hypothesis and is generated.   start: ','.(a | NUMBER)+ [b] &&'end' NEWLINE ; a: NAME ; b: 'x'* *)
+Definition g13 : grammar :=
+  {| rules :=
+       [{| rname := "start"; rtype := None; rmemo := false;
+           rrhs := Rhs 1 [Alt [NItem 2 None None (Gather 3 (StringLeaf "','")
+                                   (Group (Rhs 4 [Alt [NItem 5 None None (NameLeaf "a")] None; Alt [NItem 6 None None (NameLeaf "NUMBER")] None])));
+                                NItem 7 None None (Opt (NameLeaf "b"));
+                                NItem 8 None None (Forced (StringLeaf "'end'"));
+                                NItem 9 None None (NameLeaf "NEWLINE")] None] |};
+        {| rname := "a"; rtype := None; rmemo := false; rrhs := Rhs 10 [Alt [NItem 11 None None (NameLeaf "NAME")] None] |};
+        {| rname := "b"; rtype := None; rmemo := false; rrhs := Rhs 12 [Alt [NItem 13 None None (Repeat0 14 (StringLeaf "'x'"))] None] |}];
+     metas := [] |}.
+Definition an13 : analysis := {| a_nullable := ["b"]; a_item_nullable := [7%N; 13%N]; a_graph := []; a_left_rec := []; a_leaders := [] |}.
+Example C13_generated_example :
+  grammar_names_ok g13 = true /\
+  match generate [] [] "" "" "g" 100 g13 an13 with
+  | inl M => map m_name (i_meths M) = ["start"; "a"; "b"; "_loop0_2"; "_gather_1"; "_loop0_3"; "_tmp_4"]
+  | inr _ => False
+  end.
+Proof. vm_compute. split; reflexivity. Qed.
+Print Assumptions C13_generated_example.
